@@ -343,6 +343,11 @@ Section Oracle.
 
   Definition wrap := wrap_gen true.
 
+  (* A wrapped handler keeps NO state between calls: one handler value used for a
+     list of requests (one after the other, or at the same time - then the list is
+     any order in which they are taken up) answers every request by itself. *)
+  Definition serve (fi : finfo) (ps : list pvalue) : list outcome := map (wrap fi) ps.
+
   (* The quantities the C15 statement speaks about. *)
   Definition array_eff (fi : finfo) : bool := negb (is_nil (fi_pos_names fi)) && fi_array fi.
   Definition strict_eff_gen (fix_F12 : bool) (fi : finfo) (a : ty) : bool :=
